@@ -94,3 +94,14 @@ def mpbfl_step_post(f, x, d, r):
         'to_pos_inf': implies(t > f._pos_maxval_ord, r._isinf and not r._real._s),
         'to_neg_inf': implies(t < f._neg_maxval_ord, r._isinf and r._real._s),
     }
+
+
+# ---------------------------------------------------------------------------
+# EFloatFormat through its bounded format: membership as the code composes it (special values by the flags, finite values
+# by the MPBFloatFormat underneath, -0 unless its word is the NaN, non-zero values only if the format has any).
+# That the bounds of `_mpb_fmt` are the largest decoded values is NOT established here (see the report: open).
+
+def ef_member_mpb(f, x):
+    nk = f.nan_kind.name
+    return ite(x._isinf, f.enable_inf, ite(x._isnan, nk != 'NONE',
+               mpbfl_inF(f._mpb_fmt, x) and ite(x._real._c == 0, not (x._real._s and nk == 'NEG_ZERO'), f._has_nonzero)))
